@@ -11,7 +11,7 @@ from .. import env, coq, runner
 
 LEVEL = 'other'
 META = dict(
-    text='Proof part: Coq theorems over an executable model of CirqEncoder/ObjectHook (values and JSON documents as finite trees, memo keyed by equality): decode(encode v) = v for every finite value with any sharing, VAL keys dense, one VAL per distinct by-key object, every REF met after its VAL is complete; value equality via canonical forms implies equal hashes (PeriodicValue, @value_equality); Qid._cmp_tuple is a strict total order and the order the qubit classes implement is total, consistent with equality and transitive for the registered class table (checked by vm_compute on every run). The model is compared with the implementation on every run (full JSON text of generated nestings of by-key/plain objects, decoder results incl. malformed and legacy documents, VAL/REF key sequences of real FrozenCircuit nestings, qubit comparisons and sorted()). Exploration part (deciding for the per-class half): every class registered in the resolver caches of cirq, cirq_google, cirq_ionq, cirq_aqt, cirq_pasqal is instantiated from its stored examples and from generated mutants of its constructor arguments, alone and nested in lists/dicts/circuits with shared sub-circuits, and checked for JSON round trip (== and hash), repr evaluation, behaviour (unitary, keys, str), pickle/copy/deepcopy incl. a second process with another hash seed; every stored .json/.json_inward reads to the value of its paired .repr; the id()-keyed encoder cache is stressed and audited.',
+    text='Proof part: Coq theorems over an executable model of CirqEncoder/ObjectHook (values and JSON documents as finite trees, memo keyed by equality): decode(encode v) = v for every finite value with any sharing, VAL keys dense, one VAL per distinct by-key object, every REF met after its VAL is complete; value equality via canonical forms implies equal hashes (PeriodicValue, @value_equality); Qid._cmp_tuple is a strict total order and the order the qubit classes implement is total, consistent with equality and transitive for the registered class table (checked by vm_compute on every run); measurement keys written into documents as their joined string (Codec/KeyPath.v): parse(str k) = k with every path entry kept apart for keys of any nesting depth, str(parse s) = s for every string, string equality = structural equality on the domain, refuted outside it (a path entry containing the separator). The model is compared with the implementation on every run (full JSON text of generated nestings of by-key/plain objects, decoder results incl. malformed and legacy documents, VAL/REF key sequences of real FrozenCircuit nestings, qubit comparisons and sorted(), MeasurementKey str/parse_serialized and the key field of MeasurementGate documents on a fixed grid of keys 0..4 scopes deep plus random ones). Exploration part (deciding for the per-class half): every class registered in the resolver caches of cirq, cirq_google, cirq_ionq, cirq_aqt, cirq_pasqal is instantiated from its stored examples and from generated mutants of its constructor arguments, alone and nested in lists/dicts/circuits with shared sub-circuits, and checked for JSON round trip (== and hash), repr evaluation, behaviour (unitary, keys, str), the key OBJECTS carried (path entries, name, order - not only the joined strings), pickle/copy/deepcopy incl. a second process with another hash seed (every value hashed before it is pickled; every qid of the pool, also qids made of string-hashed qids, alone and inside operations/moments/frozen circuits/circuit operations; operations and circuits with their qubits renamed to string-hashed ones); keys 0..4 scopes deep through every entry point that puts a key into a document (measurements, Pauli measurements, conditions, classical controls, scoped and repeated sub-circuits unrolled, data stores) must come back with the same path, order and rescoping behaviour from JSON, pickle and deepcopy; every stored .json/.json_inward reads to the value of its paired .repr; the id()-keyed encoder cache is stressed and audited.',
     note='Not covered by proof: the ~210 per-class _json_dict_/_from_json_dict_ pairs (Python object construction) — explored only, on stored examples and generated mutants; classes with stored examples only, and skipped ones, are listed in the evidence. Trusted: Coq kernel; the Python adapters in vf/checks/c11.py (building Cirq objects from abstract trees, printing Gallina terms); json/pickle/copy of CPython. The model identifies sharing with equality (as CirqEncoder._memo does) and does not model object identity, so the id()-keyed CirqEncoder._cache is explored (audit + stress), not proved. Theorems are closed under the global context.',
     technique='Rocq/Coq proof over an executable Gallina model of the codec core + vm_compute correspondence; typed mutation-based exploration of the registered class population',
 )
@@ -595,7 +595,9 @@ def run(ctx):
                 'key sequence of real nestings of FrozenCircuit/CircuitOperation/Circuit/list/dict (non-trivial = >=2 VAL and >=1 REF). '
                 'EXPLORATION PART (per-class, deciding for that half): see coverage.classes — every registered class, stored .repr examples + '
                 'typed mutants of JSON fields and constructor arguments, nested in lists/dicts/circuits with shared sub-circuits; every stored '
-                '.json/.json_inward against its .repr; cases are distinct by canonical text.')
+                '.json/.json_inward against its .repr; cases are distinct by canonical text. KEYS: a fixed grid of (path, name) with 0..4 path entries '
+                '(the same for every seed) plus random ones, through 18 entry points; non-trivial = a key with >= 2 path entries. CROSS-PROCESS: '
+                'what the class stream pickled after hashing, plus (every seed alike) each qid of the pool in 9 containers and renamed-qubit variants.')
     ctx.assumptions += ['vf/checks/c11.py adapters: abstract tree -> Cirq objects / Gallina terms, JSON text -> Gallina json',
                         'CPython json/pickle/copy, numpy/pandas/sympy equality as used by cirq._compat.proper_eq',
                         'sharing is identified with equality (CirqEncoder._memo is keyed by ==/hash); object identity (the id()-keyed _cache) is explored, not modelled']
@@ -690,7 +692,11 @@ def replay(ctx, data):
         return bool(ok)
     if k == 'xproc':
         ex = Explorer(ctx, mods, None)
-        ex.xproc = [(data['label'], base64.b64decode(data['pickle_b64']), data['json_text'])]
+        # the failing input is the value and its history (hashed, then pickled), not the bytes some other tree wrote:
+        # rebuild the value on the tree under test, hash it, pickle it here, open it in the second process
+        x = cirq.read_json(json_text=data['json_text'])
+        hash(x)
+        ex.xproc = [(data['label'], pickle.dumps(x), data['json_text'])]
         before = len(ctx.violations)
         stream_xproc(ctx, mods, ex)
         return len(ctx.violations) == before and not ctx.known_hits
